@@ -802,3 +802,54 @@ func ruleTrieCopyShares(c *Ctx) {
 	}
 	c.Floor("value copies of mpt.Trie", ncopy, 1)
 }
+
+// ---------------------------------------------------------------------------
+// limit-scale (C12): the VM keeps its gas limit in picoGAS, i.e. the Datoshi limit it is given times a constant.
+// A product of a caller-chosen 64-bit quantity and a constant wraps for large operands; a wrapped limit is negative
+// and a negative limit means "unlimited" to the per-instruction check - a transaction whose system fee exceeds
+// MaxInt64/multiplier would run without any gas bound. Every write of the limit field whose value is such a product
+// is gated by a comparison of the operand with a bound derived from math.MaxInt64.
+func ruleLimitScale(c *Ctx) {
+	pk := c.P.Pkg("pkg/vm")
+	if pk == nil {
+		c.Lost("limit-scale.anchor", "package vm not found")
+		return
+	}
+	n := 0
+	for _, fd := range c.P.AllFuncDecls() {
+		if fd.Pkg != pk || fd.Decl.Body == nil {
+			continue
+		}
+		f := c.P.NewFuncCFG(fd)
+		info := fd.Pkg.TypesInfo
+		for _, w := range f.WriteSites("pkg/vm#gasLimit") {
+			as, ok := w.node.(*ast.AssignStmt)
+			if !ok {
+				continue
+			}
+			scaled := as.Tok == token.MUL_ASSIGN
+			for _, r := range as.Rhs {
+				ast.Inspect(r, func(x ast.Node) bool {
+					if be, ok := x.(*ast.BinaryExpr); ok && be.Op == token.MUL {
+						if tv, ok := info.Types[be]; !ok || tv.Value == nil {
+							scaled = true
+						}
+					}
+					return true
+				})
+			}
+			if !scaled {
+				continue
+			}
+			n++
+			key := fmt.Sprintf("limit-scale.%s#%d", FuncKey(fd.Obj), n)
+			res := f.CheckGate(f.Entry(), map[*cfg.Block]bool{w.blk: true}, Guard{ID: "no-wrap", Doc: "the operand is compared with a bound derived from math.MaxInt64", Alts: [][]string{{"math.MaxInt64"}}, WholeOpen: true}, nil)
+			if res.OK {
+				c.OK(key, c.P.Pos(as.Pos()), "the scaled gas limit cannot wrap: "+res.Msg)
+			} else {
+				c.Fail(key, c.P.Pos(as.Pos()), FuncKey(fd.Obj)+" multiplies a caller-chosen 64-bit gas limit by a constant without bounding it: above MaxInt64/multiplier the product wraps negative, and a negative limit switches the per-instruction gas check off")
+			}
+		}
+	}
+	c.Floor("scaled writes of the VM gas limit", n, 1)
+}
